@@ -1,12 +1,14 @@
 /-
   C09 — alternative routes agree; zone files round-trip.  Property theorems only
-  (the string-level proof of the zone round trip is in Proofs/Zone.lean).
+  (the string-level proof of the zone round trip is in Proofs/Zone.lean, the route agreement in Proofs/RmsdRoutes.lean;
+  Fnat fast = SQL is `Props.C08.fast_eq_sql_fnat`, svd = quaternion is `Props.C06.methods_agree`).
 -/
 import PdbVerif.Gen.Str
 import PdbVerif.Proofs.Zone
+import PdbVerif.Proofs.RmsdRoutes
 
 namespace Props.C09
-open Py
+open Py Model Model.Rmsd Spec.Rmsd Proofs.Rmsd Proofs.Msd Proofs.Contacts Proofs.Routes
 
 /-- The line written for one residue is `zone <chain><num>-<chain><num>` + newline, for every chain string and every
     integer (zero and negative included: the sign is part of the number's decimal form). -/
@@ -41,5 +43,66 @@ example : (Gen.zone_line ['A'] (-3) >>= Gen.read_zone_line) = .ok (['A'], -3) :=
 theorem read_write_zone_dash_counterexample :
     (Gen.zone_line ['-'] 5 >>= Gen.read_zone_line) ≠ .ok (['-'], 5) :=
   Proofs.Zone.read_write_zone_dash_counterexample
+
+/-! ### route agreement (proved by the RMSD cluster on top of the C07 pair theorems; restated here so that the
+    statements stay visible in the property file) -/
+
+/-- **zone_sources_agree.**  For a reference whose chain identifiers are single characters other than `-` and blanks,
+    both fast routines return the same outcome — error class and ordered pair lists — whether the zone is computed in
+    memory (`izone=None`), computed and written to an absent file, or read from the file such a run left behind. -/
+theorem zone_sources_agree (dl rl : List Str) (tdec : Except Err (List Atom)) (ref : List Atom)
+    (hw : TableChainsWritable ref) (c : Rat) (check enforce : Bool) :
+    irmsdFast dl rl tdec (.ok ref) .write c check enforce = irmsdFast dl rl tdec (.ok ref) .compute c check enforce ∧
+    lrmsdFast dl rl tdec (.ok ref) .write check enforce = lrmsdFast dl rl tdec (.ok ref) .compute check enforce ∧
+    (∀ text, izoneFileText (.ok ref) c = .ok text →
+      irmsdFast dl rl tdec (.ok ref) (.read text) c check enforce = irmsdFast dl rl tdec (.ok ref) .compute c check enforce) ∧
+    (∀ text, lzoneFileText (.ok ref) = .ok text →
+      lrmsdFast dl rl tdec (.ok ref) (.read text) check enforce = lrmsdFast dl rl tdec (.ok ref) .compute check enforce) :=
+  Proofs.Routes.zone_sources_agree dl rl tdec ref hw c check enforce
+
+/-- **zone_sources_agree (SQL i-RMSD).**  On a consistent pair whose reference chains can be written to a zone file, the SQL
+    i-RMSD routine returns the same outcome from the zone file a fast run left behind as from the zone it computes itself. -/
+theorem irmsdSql_zone_file (dec ref : List Atom) (hc : Consistent dec ref) (hw : TableChainsWritable ref) (c : Rat)
+    (text : List Str) (htext : izoneFileText (.ok ref) c = .ok text) :
+    irmsdSql (.ok dec) (.ok ref) (some text) c = irmsdSql (.ok dec) (.ok ref) none c :=
+  Proofs.Routes.irmsdSql_zone_file dec ref hc hw c text htext
+
+/-- **fast_eq_sql_irmsd.**  On a consistent two-chain pair (raw readers agreeing with the tables), whenever both i-RMSD
+    routines return a value they were computed from the same pairs up to order — both lists are permutations of the
+    definition's list —: the same deviation under every motion, the same minimum over rigid motions, and, with optimal
+    kernels (any method on either side), the same radicand.  With enforcement off the fast routine returns a value exactly
+    when the SQL routine does. -/
+theorem fast_eq_sql_irmsd (dl rl : List Str) (dec ref : List Atom) (hd : RawAgrees dl dec) (hr : RawAgrees rl ref)
+    (hc : Consistent dec ref) (src : ZoneSrc) (hsrc : src = .compute ∨ src = .write) (c : Rat) (enforce : Bool) :
+    (∀ ff ef fs es, irmsdFast dl rl (.ok dec) (.ok ref) src c true enforce = .value ff ef →
+      irmsdSql (.ok dec) (.ok ref) none c = .value fs es →
+      ef = ff ∧ es = fs ∧ (ff.map idPair).Perm (fs.map idPair) ∧
+      (∀ g : Motion ℝ, msd g (realPairs (coordsOf ff)) = msd g (realPairs (coordsOf fs))) ∧
+      (∀ m : ℝ, IsMinMsd m (realPairs (coordsOf ff)) ↔ IsMinMsd m (realPairs (coordsOf fs))) ∧
+      (∀ (rot rot' : List (Vec3 ℝ) → List (Vec3 ℝ) → Except Err (Mat3 ℝ)),
+        KernelOptimalAt rot (realPairs (coordsOf ff)) → KernelOptimalAt rot' (realPairs (coordsOf fs)) →
+        radicand rot (realPairs (coordsOf ff)) (realPairs (coordsOf ef)) =
+          radicand rot' (realPairs (coordsOf fs)) (realPairs (coordsOf es)))) ∧
+    (enforce = false →
+      ((∃ ff ef, irmsdFast dl rl (.ok dec) (.ok ref) src c true enforce = .value ff ef) ↔
+       (∃ fs es, irmsdSql (.ok dec) (.ok ref) none c = .value fs es))) :=
+  Proofs.Routes.fast_eq_sql_irmsd dl rl dec ref hd hr hc src hsrc c enforce
+
+/-- **fast_eq_sql_lrmsd.**  Likewise for the L-RMSD: both routines fit on permutations of the same list (common backbone
+    atoms of the longer chain of the reference) and evaluate on permutations of the same list (shorter chain); hence the same
+    deviations under every motion and the same fit-then-evaluate values; both check residues with the same backbone names, so
+    they raise the enforced mismatch together, and they return a value on exactly the same inputs. -/
+theorem fast_eq_sql_lrmsd (dl rl : List Str) (dec ref : List Atom) (hd : RawAgrees dl dec) (hr : RawAgrees rl ref)
+    (hc : Consistent dec ref) (src : ZoneSrc) (hsrc : src = .compute ∨ src = .write) (enforce : Bool) :
+    (∀ ff ef fs es, lrmsdFast dl rl (.ok dec) (.ok ref) src true enforce = .value ff ef →
+      lrmsdSql (.ok dec) (.ok ref) enforce = .value fs es →
+      (ff.map idPair).Perm (fs.map idPair) ∧ (ef.map idPair).Perm (es.map idPair) ∧
+      (∀ g : Motion ℝ, msd g (realPairs (coordsOf ff)) = msd g (realPairs (coordsOf fs)) ∧
+                        msd g (realPairs (coordsOf ef)) = msd g (realPairs (coordsOf es))) ∧
+      (∀ m : ℝ, IsFitThenEval m (realPairs (coordsOf ff)) (realPairs (coordsOf ef)) ↔
+                 IsFitThenEval m (realPairs (coordsOf fs)) (realPairs (coordsOf es)))) ∧
+    ((∃ ff ef, lrmsdFast dl rl (.ok dec) (.ok ref) src true enforce = .value ff ef) ↔
+     (∃ fs es, lrmsdSql (.ok dec) (.ok ref) enforce = .value fs es)) :=
+  Proofs.Routes.fast_eq_sql_lrmsd dl rl dec ref hd hr hc src hsrc enforce
 
 end Props.C09
